@@ -127,7 +127,7 @@ pub fn run(p: &Params, rep: &mut Report) {
         }
         check_ints(rep, &mut m, &[], seed);
     }
-    let n = p.size(3000, 100_000);
+    let n = p.size(30_000, 400_000);
     for _ in 0..n {
         let len = 1 + rng.usize(6);
         let a: Vec<u32> = (0..len)
@@ -159,7 +159,7 @@ pub fn run(p: &Params, rep: &mut Report) {
             rep.eval(Some(&format!("c{:x}", cp)));
         }
     }
-    let n2 = p.size(2000, 60_000);
+    let n2 = p.size(20_000, 300_000);
     for _ in 0..n2 {
         let len = rng.usize(8);
         let t: String = (0..len)
@@ -205,7 +205,7 @@ pub fn run(p: &Params, rep: &mut Report) {
 
     // results of string functions, regex replace and get_string on well-formed inputs
     let good: [u32; 8] = [0, 0x41, 0x61, 0x62, 0xFFFD, 0x10000, 0x2FFFE, 0x2FFFF];
-    let n3 = p.size(1500, 40_000);
+    let n3 = p.size(10_000, 150_000);
     for _ in 0..n3 {
         let mk = |rng: &mut Rng, max: usize| -> Vec<u32> { (0..rng.usize(max + 1)).map(|_| *rng.pick(&good)).collect() };
         let (a, b, c) = (mk(&mut rng, 8), mk(&mut rng, 3), mk(&mut rng, 3));
@@ -234,7 +234,7 @@ pub fn run(p: &Params, rep: &mut Report) {
         rep.eval(Some(&case));
     }
     // regex replace (wrappers) and get_string on generated expressions
-    let nprog = p.size(10, 120);
+    let nprog = p.size(40, 400);
     for _ in 0..nprog {
         let prog = gen_program(&mut rng, Profile::Boundary, 25);
         let pool = {
